@@ -26,6 +26,7 @@ func C08(r *core.Run) {
 	rule083(r, ctx)
 	rule084(r)
 	rule085(r, ctx)
+	rule086(r)
 	rule066(r, ctx)
 }
 
@@ -558,3 +559,51 @@ func rule085(r *core.Run, ctx *oblig.Ctx) {
 }
 
 func isErrTyped(v ssa.Value) bool { return core.IsErrorType(v.Type()) }
+
+// rule086 — ReadAll always drives the reader to its end.
+func rule086(r *core.Run) {
+	r.Rule("R08.6", "gofakes3.ReadAll returns success only after the trailing read that drains the reader to EOF (io/ioutil.ReadAll(r)): that read is what makes a hashing reader compare its digest and what notices bytes beyond the declared size — no fast path may skip it")
+	fn := mustFunc(r, "gofakes3.ReadAll")
+	if fn == nil {
+		return
+	}
+	rp := fn.Params[0]
+	var drains []ssa.Instruction
+	core.Instrs(fn, func(in ssa.Instruction) {
+		c, ok := in.(*ssa.Call)
+		if !ok {
+			return
+		}
+		n := r.P.CalleeName(c)
+		if (n == "io/ioutil.ReadAll" || n == "io.ReadAll") && c.Call.Args[0] == ssa.Value(rp) {
+			drains = append(drains, c)
+		}
+		if n == "io.Copy" && len(c.Call.Args) == 2 && c.Call.Args[1] == ssa.Value(rp) {
+			drains = append(drains, c)
+		}
+	})
+	if len(drains) == 0 {
+		r.Violated("R08.6", key(fname(r, fn), "drains the reader"), r.P.Pos(fn.Pos()), "ReadAll no longer reads the input to EOF after the declared size: a digest carried by the reader is never verified and trailing bytes go unnoticed")
+		return
+	}
+	n := 0
+	for ret, ev := range returnedErrors(fn) {
+		if !definitelyNil(r, ev) {
+			continue
+		}
+		n++
+		skipped := core.ReachableFromEntryAvoiding(ret, func(in ssa.Instruction) bool {
+			for _, d := range drains {
+				if in == d {
+					return true
+				}
+			}
+			return false
+		})
+		r.Check(!skipped, "R08.6", key(fname(r, fn), "success only after draining", sprintf("#%d", n)), pos(r, ret), "every successful path reads the input to EOF",
+			"ReadAll can return success without reading the input to EOF (a fast path): with a hashing reader the Content-MD5 is then never compared, and bytes beyond the declared size are not noticed — a corrupt upload is accepted")
+	}
+	if n == 0 {
+		r.Unresolved("R08.6: ReadAll has no success return")
+	}
+}
